@@ -1,7 +1,26 @@
-claim("C01", "SSA dominance facts (must-pass-through) + error-flow analysis + field-ownership",
+claim("C01", "SSA dominance facts (must-pass-through) + error-flow analysis + field-ownership + effects analysis",
       "Decides: every layout-trusting call and every success return of both entry points is dominated by a successful "
       "VerifyLayoutSignatures(env, keys) on the unmodified parameters; the guard's shape (non-empty key set, all keys, errors fail); "
       "the enforced Layout derives from GetPayload() of the verified object; signature is bound to the enforced bytes per wrapper; "
-      "strict decoding; no dropped errors. Does not decide cryptographic soundness.", "4.1")
-for i in range(2, 21):
+      "strict decoding; no dropped errors; no write through the caller's layout. Does not decide cryptographic soundness.", "4.1")
+claim("C05", "SSA def-use wiring + path facts over the compare loop + access-path tables",
+      "Decides: only verified links flow through sublayouts/reduce/rules/summary; every link of a step is compared on materials and "
+      "products on every path to the loop latch and mismatches fail; summary endpoints are Steps[0].Materials / Steps[len-1].Products / the "
+      "requested name. Does not decide DeepEqual semantics or rule verdicts.", "4.5")
+claim("C06", "SSA dominance facts (must-pass-through) + constant/time-layout table + branch polarity evaluation",
+      "Decides: every later stage and success return is dominated by a successful expiry check of the verified layout; the check parses a "
+      "constant full-UTC layout, propagates parse errors and fails for an expiry in the past. Does not decide clock behaviour.", "4.6")
+claim("C08", "SSA shape analysis of VerifySublayouts + call-graph identity of the recursive entry point",
+      "Decides: every Layout payload in the verified map is passed to the same verification entry point with exactly the parent layout's "
+      "key of the counted functionary, the <step>.<8-char keyid> directory and the step name; its error fails; the summary replaces it. "
+      "Does not decide termination on adversarial directory structures.", "4.8")
+claim("C09", "SSA dominance facts (ordering) + shape analysis + who-may-call",
+      "Decides: inspections run only after all step checks succeeded and success requires successful inspections and inspection rules; "
+      "RunInspections runs every inspection's own command in order, fails on start failure and non-zero status; exit-status type agreement; "
+      "materials before / products after the command; os/exec only via RunInspections->InTotoRun->RunCommand. Does not decide artifact recording.", "4.9")
+claim("C14", "typestate over *exec.Cmd in SSA + def-use pairing of streams and keys + error-flow",
+      "Decides: the two pipes of one Cmd are never drained sequentially in the waiting goroutine; Wait dominates success returns and follows "
+      "reads; return-value/stdout/stderr derive from Wait/stdout/stderr respectively; empty command refused before indexing. Does not decide timing "
+      "or signal exits.", "4.14")
+for i in [2,3,4,7,10,11,12,13,15,16,17,18,19,20]:
     na("C%02d" % i, "check under construction in this commit; see DESIGN.md section 4 for the planned structural clauses")
